@@ -4,11 +4,13 @@ UNITS = []
 MIN_OBLIGATIONS = 20
 DESIGN_REF = 'DESIGN.md section 3, C19'
 TECHNIQUE = 'deductive verification incl. the CPython rule that a dictionary must not change size while iterated, and exceptional paths of the consumer callback; z3'
-LEVEL_TEXT = ('ServerSet._send_all_removed (deletion of the watched path) is verified: afterwards no member is held, the cached child names are reset (so members re-created under a re-created path are announced again), '
-              'the loop iterates a dictionary that nothing mutates (the RuntimeError obligation is discharged), and an exception raised by the consumer\'s on_leave is caught for every member, so it does not stop later notifications.')
-LEVEL_NOTE = ('Trusted: pyvc encoding, z3; Kazoo DataWatch/ChildrenWatch deliver callbacks serially with the current stat / child list. Only this function of the C19 mechanism is under contract in this version: '
-              'the children diff (_on_set_changed: set(comprehension) over a filter callable), the notification worker (generator expressions over ZooKeeper reads) and _data_changed are not yet verified units, '
-              'so "joins and leaves applied in order leave the consumer with exactly the current members" is claimed for the path-deletion case only.')
+LEVEL_TEXT = ('ServerSet._send_all_removed (deletion of the watched path): afterwards no member is held, the cached child names are reset (so members re-created under a re-created path are announced again), '
+              'every previously announced member gets exactly one leave notification and a raising consumer callback stops nothing. '
+              '_on_set_changed (children callback): the child-name cache becomes the filtered listing and exactly (listed now and not before, listed before and not now) is queued for the worker, for every listing. '
+              '_get_info / _safe_zk_node_to_member: reading a member touches no ServerSet state (frame condition: the name cache and the member cache are written only by the children callback, the worker and _send_all_removed); a node deleted in between reads as None. '
+              '_notification_worker: a departed member is removed from the member cache before its leave callback runs (a raising callback leaves nothing behind, no second leave later), one notification per departed/joined member, no consumer exception ends the loop.')
+LEVEL_NOTE = ('Trusted: pyvc encoding, z3; Kazoo DataWatch/ChildrenWatch deliver callbacks serially with the current stat / child list; _zk_nodes_to_members (a list comprehension over a nested generator) has an assumed contract -- its only callee with effects is verified. '
+              'Not under contract: __iter__/get_members, _monitor/_data_changed/_begin_watch (watch registration), the agreement of the consumer view with the actual znode tree over a whole history (needs Kazoo\'s delivery semantics).')
 ASSUMPTIONS = ['Kazoo watch semantics', 'dictionary iteration visits every entry exactly once']
 TRUSTED = []
 BOUNDED = []
